@@ -27,7 +27,7 @@ def gen(wd, family: str, mode: str, *, rnd_seed=None, rndn=5, rndk=4):
         items.sort(key=lambda it: json.dumps(it["g"], sort_keys=True))
         for it in items:
             # q[2] is a set (conditions) except in mode "tian", where it is a topological order (a sequence)
-            it["qs"] = sorted([sorted(q[0]), sorted(q[1]), list(q[2]) if mode == "tian" else sorted(q[2]), q[3]]
+            it["qs"] = sorted([sorted(q[0]), sorted(q[1]), list(q[2]) if mode == "tian" else sorted(q[2]), q[3]] + list(q[4:])
                               for q in it["qs"])
         return {"items": items, "generated": r["generated"], "distinct": r["distinct"]}
     if rnd_seed is not None:
